@@ -1300,6 +1300,9 @@ VOCAB = [
 ]
 RARE = {14, 15}
 TTLS = [0, 1, 2, 120, 1124, 1125, 4500]
+# the TTL field is an UNSIGNED 32-bit number (RFC 1035 erratum 2130): values with the top bit set must not read as negative (a record
+# with such a TTL would count as expired on arrival, i.e. as a goodbye -- seeded defect C06-w5-seed2).  Mixed in with p = 0.06
+BIG_TTLS = [0x7FFFFFFF, 0x80000000, 0x80000001, 0xFFFFFFFF]
 STEPS = [0, 1, 999, 1000, 1001, 9999, 10000, 10001, 3_600_000, 7_200_000]
 
 
@@ -1359,7 +1362,7 @@ def pick_step(rng, ref, now):
         e = rng.choice(list(ref.d.values()))
         base = e[0] + 1000 * e[1] if rng.random() < 0.7 else e[0] + 1000
         t = base + rng.choice([-1, 0, 1])
-        if t >= now:
+        if now <= t <= now + 4 * 3_600_000:       # (a record with a TTL of decades is not waited for)
             return t - now
     if x < 0.55:
         nxt = (now // 10000 + 1) * 10000
@@ -1397,6 +1400,8 @@ def gen_datagram(rng, vocab, ref, opts):
                 k = rng.randrange(len(vocab))
             tpl = vocab[k]
         ttl = rng.choice(TTLS)
+        if rng.random() < 0.06:
+            ttl = rng.choice(BIG_TTLS)
         pf = opts.get("p_flush_ptr", 0.15) if tpl[0] == "p" else opts.get("p_flush", 0.4)
         recs.append(inst(tpl, ttl, rng.random() < pf))
     return recs
